@@ -97,12 +97,15 @@ func genCase(t *rapid.T) Case {
 	newest := [nClients]int{-1, -1}
 	n := rapid.IntRange(4, 16).Draw(t, "nops")
 	ticks := 0
-	kinds := []string{"connect", "connect", "connect", "connect", "hb", "hbold", "close", "close", "close", "tick", "tick", "tick", "streak", "sweep", "lapse", "relogin"}
-	streaks, lapses := 0, 0
+	kinds := []string{"connect", "connect", "connect", "connect", "hb", "hbold", "close", "close", "close", "tick", "tick", "tick", "streak", "sweep", "lapse", "relogin", "sibling"}
+	streaks, lapses, siblings := 0, 0, 0
 	for i := 0; i < n; i++ {
 		k := rapid.SampledFrom(kinds).Draw(t, "kind")
 		if k == "streak" && (!short || streaks >= 1) {
 			k = "close"
+		}
+		if k == "sibling" && (!short || siblings >= 1) {
+			k = "sweep"
 		}
 		if k == "lapse" && (!short || lapses >= 1) {
 			k = "connect"
@@ -188,6 +191,42 @@ func genCase(t *rapid.T) Case {
 			}
 			if len(superseded) > 0 && rapid.IntRange(0, 3).Draw(t, "lateHB") > 0 {
 				c.Ops = append(c.Ops, Op{Kind: "hbold", Conn: superseded[rapid.IntRange(0, len(superseded)-1).Draw(t, "oldConn")]})
+			}
+		case "sibling":
+			// a second, idle connection of a connected client on the same node (tunnel-type login that never opens a
+			// tunnel, or a failed login) goes stale and is swept while the control connection keeps heartbeating; the
+			// session then outlives the registration lifetime on heartbeats alone
+			if len(hbable) == 0 {
+				break
+			}
+			siblings++
+			x := hbable[rapid.IntRange(0, len(hbable)-1).Draw(t, "siblingClient")]
+			nd := conns[newest[x]].node
+			mode := rapid.SampledFrom([]string{"tunnel-type", "tunnel-type", "bad-secret", "no-handshake"}).Draw(t, "siblingMode")
+			c.Ops = append(c.Ops, Op{Kind: "connect", Client: x, Node: nd, Mode: mode})
+			conns = append(conns, gconn{client: x, node: nd, open: false}) // swept right below
+			keep := []int{x}
+			for _, y := range hbable {
+				if y != x && rapid.Bool().Draw(t, "keepOther") {
+					keep = append(keep, y)
+				}
+			}
+			c.Ops = append(c.Ops, Op{Kind: "sweep", Node: nd, HB: keep})
+			for j := range conns {
+				if conns[j].open && conns[j].node == nd {
+					kept := false
+					for _, y := range keep {
+						if newest[y] == j {
+							kept = true
+						}
+					}
+					if !kept {
+						conns[j].open = false
+					}
+				}
+			}
+			for j := rapid.IntRange(4, 5).Draw(t, "siblingStreak"); j > 0; j-- {
+				c.Ops = append(c.Ops, Op{Kind: "tick", HB: keep, FF: rapid.IntRange(0, 3).Draw(t, "ff") > 0})
 			}
 		case "lapse":
 			// the client is silent for longer than the registration lifetime while its connection lives (heartbeat gap,
@@ -1158,6 +1197,9 @@ func TestScenarios(t *testing.T) {
 		// the cloud control's runtime state is unreachable on every node; heartbeats must still keep the location records alive
 		{Nodes: 2, TTLms: shortTTLms, CloudOut: []int{0, 1}, Ops: []Op{{Kind: "connect", Client: 0, Node: 1, Mode: "good"}, {Kind: "tick", HB: []int{0}, FF: true}, {Kind: "tick", HB: []int{0}, FF: true},
 			{Kind: "tick", HB: []int{0}, FF: true}, {Kind: "tick", HB: []int{0}, FF: true}, {Kind: "tick", HB: []int{0}, FF: true}, {Kind: "close", Conn: 0}}},
+		// an idle tunnel-type sibling of the control connection is swept; the control connection lives on by heartbeats
+		{Nodes: 2, TTLms: shortTTLms, Ops: []Op{{Kind: "connect", Client: 0, Node: 0, Mode: "good"}, {Kind: "connect", Client: 0, Node: 0, Mode: "tunnel-type"}, {Kind: "sweep", Node: 0, HB: []int{0}},
+			{Kind: "tick", HB: []int{0}, FF: true}, {Kind: "tick", HB: []int{0}, FF: true}, {Kind: "tick", HB: []int{0}, FF: true}, {Kind: "tick", HB: []int{0}, FF: true}, {Kind: "tick", HB: []int{0}, FF: true}, {Kind: "close", Conn: 0}}},
 		// default lifetime (ttl argument 0)
 		{Nodes: 2, TTLms: 0, Ops: []Op{{Kind: "connect", Client: 1, Node: 1, Mode: "good"}, {Kind: "connect", Client: 1, Node: 1, Mode: "bad-secret"}, {Kind: "connect", Client: 1, Node: 0, Mode: "tunnel-type"}, {Kind: "close", Conn: 0}}},
 	} {
